@@ -39,9 +39,12 @@ thread_local! {
     pub static CO_CTX: RefCell<Option<(std::sync::mpsc::Sender<CoEv>, std::sync::mpsc::Receiver<()>)>> = RefCell::new(None);
 }
 
+thread_local! { pub static CO_ALL_SITES: RefCell<bool> = RefCell::new(false); }
+
 pub fn install_yield_hook() {
     nundb::verif::set_yield_hook(Some(Arc::new(|site: &'static str| {
-        if !site.starts_with("start_election:") { return; }
+        // election coroutines park in the wait loops only; schedule-stage workers park before every lock acquisition
+        if !site.starts_with("start_election:") && !CO_ALL_SITES.with(|a| *a.borrow()) { return; }
         CO_CTX.with(|c| {
             if let Some((tx, rx)) = c.borrow().as_ref() {
                 let _ = tx.send(CoEv::Parked(site.to_string()));
@@ -517,6 +520,76 @@ impl World {
                         Node::resp_str(&process_request(&cmdline, &dbs, &mut c))
                     }))
                 } else { vec![n.exec(sid, &cmdline)] };
+                out.extend(n.drain_all(None));
+                out.extend(n.dump_delta());
+                out
+            }
+            "PAR" => {
+                // PAR <schedule> <sidA> <cmdA> <sidB> <cmdB>   (commands escaped, no blanks): the two commands run on two threads that park
+                // before every lock acquisition on Database.map / Watchers.map / connections; <schedule> (a string of 0/1) says which thread
+                // runs up to its next yield point; when it is used up (or names a finished thread) the remaining thread(s) run on, 0 first.
+                install_yield_hook();
+                let f: Vec<&str> = a2.split(' ').collect();
+                if f.len() != 4 { return vec!["E bad-op".into()]; }
+                let sids: Vec<usize> = vec![f[0].parse().unwrap_or(0), f[2].parse().unwrap_or(0)];
+                let cmds: Vec<String> = vec![unesc(f[1]), unesc(f[3])];
+                if sids[0] == sids[1] || !n.sessions.contains_key(&sids[0]) || !n.sessions.contains_key(&sids[1]) { return vec!["E bad-op".into()]; }
+                struct SendSess(Sess);
+                unsafe impl Send for SendSess {}
+                let mut etxs = vec![]; let mut erxs = vec![]; let mut rtxs = vec![]; let mut handles = vec![];
+                for w in 0..2 {
+                    let (etx, erx) = std::sync::mpsc::channel::<CoEv>();
+                    let (rtx, rrx) = std::sync::mpsc::channel::<()>();
+                    let sess = SendSess(n.sessions.remove(&sids[w]).unwrap());
+                    let dbs = n.dbs.clone(); let dir = n.dir.clone(); let cmd = cmds[w].clone(); let etx2 = etx.clone();
+                    handles.push(std::thread::spawn(move || {
+                        let mut b = sess;
+                        nundb::verif::set_data_dir(Some(dir));
+                        CO_ALL_SITES.with(|a| *a.borrow_mut() = true);
+                        let _ = rrx.recv();                                  // wait for the first go-ahead
+                        CO_CTX.with(|c| *c.borrow_mut() = Some((etx2, rrx)));
+                        let r = std::panic::catch_unwind(std::panic::AssertUnwindSafe(|| Node::resp_str(&process_request(&cmd, &dbs, &mut b.0.client))));
+                        let resp = match r { Ok(s) => s, Err(_) => format!("R PANIC {}", LAST_PANIC.with(|p| p.borrow_mut().take()).unwrap_or_default()) };
+                        let (tx, _) = CO_CTX.with(|c| c.borrow_mut().take()).unwrap();
+                        let _ = tx.send(CoEv::Done(resp));
+                        b
+                    }));
+                    etxs.push(etx); erxs.push(erx); rtxs.push(rtx);
+                }
+                let mut done = [false, false]; let mut waiting = [false, false];   // waiting = resumed, no event yet (blocked on a lock)
+                let mut resp = vec![String::new(), String::new()];
+                let mut trace: Vec<String> = vec![];
+                let sched: Vec<usize> = a1.chars().filter_map(|c| c.to_digit(10)).map(|d| d as usize % 2).collect();
+                let mut si = 0; let mut guard = 0;
+                while !(done[0] && done[1]) && guard < 10000 {
+                    guard += 1;
+                    let mut w = if si < sched.len() { let x = sched[si]; si += 1; x } else if !done[0] { 0 } else { 1 };
+                    if done[w] { w = 1 - w; }
+                    if !waiting[w] { let _ = rtxs[w].send(()); }
+                    match erxs[w].recv_timeout(std::time::Duration::from_millis(if waiting[1 - w] || done[1 - w] { 2000 } else { 60 })) {
+                        Ok(CoEv::Parked(site)) => { waiting[w] = false; trace.push(format!("{}:{}", w, site)); }
+                        Ok(CoEv::Done(r)) => { waiting[w] = false; done[w] = true; resp[w] = r; trace.push(format!("{}:done", w)); }
+                        Err(_) => {
+                            // no event: the thread waits for a lock the other thread holds; the other one has to move first
+                            if !waiting[w] { trace.push(format!("{}:blocked", w)); }
+                            waiting[w] = true;
+                            if done[1 - w] || waiting[1 - w] { trace.push("deadlock".to_string()); break; }
+                            // give the turn to the other thread (not counted against the schedule)
+                            let o = 1 - w;
+                            let _ = rtxs[o].send(());
+                            match erxs[o].recv_timeout(std::time::Duration::from_millis(2000)) {
+                                Ok(CoEv::Parked(site)) => trace.push(format!("{}:{}", o, site)),
+                                Ok(CoEv::Done(r)) => { done[o] = true; resp[o] = r; trace.push(format!("{}:done", o)); }
+                                Err(_) => { trace.push("deadlock".to_string()); break; }
+                            }
+                        }
+                    }
+                }
+                let mut out = vec![format!("S {}", trace.join(" "))];
+                for (w, h) in handles.into_iter().enumerate() {
+                    if done[w] { if let Ok(b) = h.join() { n.sessions.insert(sids[w], b.0); } }
+                }
+                out.push(format!("R0 {}", resp[0])); out.push(format!("R1 {}", resp[1]));
                 out.extend(n.drain_all(None));
                 out.extend(n.dump_delta());
                 out
